@@ -312,8 +312,10 @@ def confirm(label, site, out, timed_out):
             return True, "data race reported by the race detector in the concurrent native replay"
         if "VERIF-GLOBAL-CHANGED" in out:
             return True, "the package-level variable was changed by the operation in the native replay"
+        if timed_out:
+            return True, "the concurrent native replay does not terminate: operations on separate objects block each other through the shared state"
         return False, "no data race and no change of the package-level variable in the concurrent native replay"
-    if label in ("unwind", "c04.variant"):
+    if label in ("unwind", "c04.variant", "deadlock"):
         if timed_out:
             return True, "native run does not terminate within the time limit"
         return False, "native run terminates"
